@@ -92,6 +92,9 @@ struct Access
 		return "";
 	}
 
+	// the queue's condition variable (an injected MonCV in the concurrent drivers)
+	template <typename Q> static auto cv(const Q & q) -> decltype((q.queueListConditionVariable)) { return q.queueListConditionVariable; }
+
 	// ---- scoped remover
 	template <typename R> static size_t removerItems(const R & r) { return r.itemList.size(); }
 };
